@@ -115,3 +115,10 @@ CHECKS["C14"] = dict(
  text="Every string method (len, character index, substring, contains, index_of, reverse, insert, replace, delete, split, chars, parse_int / _radix, parse_bigint / _radix, parse_float, parse_bool, parse_byte, * repetition, + concatenation) x 25 receivers (empty, length 1, ASCII and multi-byte text, blanks, sign / digit / 0x / 0b / hex / exponent forms, extreme decimal strings) x byte offsets {-1, 0, 1, 2, len-1, len, len+1} in all pairs, 7 patterns, radices {1, 2, 10, 16, 36, 37}; every number method (to_int, to_bigint, to_byte, to_float, abs, pow, powf, sqrt, floor, ceil, round, ipart, fpart, to_str, to_ascii) x 12-22 boundary values of each kind x exponents {-1, 0, 1, 2, 31, 40, 127} and {0.5, 2.0, -1.0, 0.0}. In the domain the exact value with the declared kind (hook H2) is required; outside the domain the program must stop with a failure.",
  note="Offsets are UTF-8 byte offsets (s[i] is by character), as the repository's tests document; conversions are in-domain iff the exact truncated value is representable; pow/powf compared to 1e-13 relative (not correctly-rounded operations); IEEE inf / NaN are defined float results.",
  design_ref="DESIGN.md section 4, C14")
+
+CHECKS["C02"] = dict(
+ category="exploration",
+ technique="bounded exhaustive enumeration of the typing tables (operator x type x type cells, expected x supplied x position cells, return-path skeletons); every program the real compiler accepts is executed and judged",
+ text="(a) every cell of the operator table: 20 binary operators, 5 op-assignments, ?= and 4 unary operators x 16 x 16 type representatives (int, bigint, float, byte, bool, str, open list, fixed-shape list, map, int? present / nil / boxed, str?, function, class, alias); (b) every (expected, supplied) type pair x 8 typed positions (annotated initialiser, re-assignment, argument, return value, pushed element, map value, field assignment, or-fallback); (c) every function-body skeleton of depth 1 (and depth 2: every 9th quick / all thorough) over {if, if/else, else-if, while, from} with return / no-return leaves, each accepted skeleton called with all condition vectors and its result stored and printed. The compiler's own verdict partitions the space; for each accepted program execution must not end in a dynamic type error (anything outside the defined failure classes) and the run-time kind (hook H2) of each printed value must fit the `typeof` text of the same expression (nil exempt).",
+ note="Failure classification per DESIGN Appendix A. When an operand of the cell is nil the failure is the defined use-of-nil whatever its wording.",
+ design_ref="DESIGN.md section 4, C02")
